@@ -25,6 +25,7 @@ type Req struct {
 	K    string `json:"k,omitempty"`
 	V    string `json:"v,omitempty"`
 	N    int    `json:"n,omitempty"`
+	N2   int    `json:"n2,omitempty"`
 	ID   uint32 `json:"id,omitempty"`
 	Data []byte `json:"data,omitempty"`
 }
